@@ -69,6 +69,9 @@ def gen_network(rng) -> dict:  # noqa: ANN001
     if order_free:
         rx = [(n, dict(rng.sample(list(st.items()), len(st))), f) for n, st, f in rng.sample(rx, len(rx))]
         rng.shuffle(names)
+    # the same network in other units: fluxes and pool sizes of 1e-9 (nano-units) or 1e+3; enrichment rates (flux / pool) stay O(1)
+    unit = rng.choice([1.0, 1.0, 1.0, 1e-9, 1e-6, 1e3])
+    rx = [(n, st, f * unit) for n, st, f in rx]
     labels = {c: rng.randint(1, 3) for c in names}
     if topo in ("dimer", "cleavage"):
         labels["A"] = rng.randint(1, 2)
@@ -77,7 +80,7 @@ def gen_network(rng) -> dict:  # noqa: ANN001
         labels["C"] = labels["A"] + labels["B"] if rng.random() < 0.7 else rng.randint(1, 3)
     if topo == "split" and rng.random() < 0.7:
         labels["A"] = min(4, labels["B"] + labels["C"])
-    pools = {c: round(rng.uniform(0.5, 3.0), 3) for c in names}
+    pools = {c: round(rng.uniform(0.5, 3.0), 3) * unit for c in names}
     comps: list[dict] = []
     maps = {}
     fluxes = {}
@@ -111,7 +114,7 @@ def gen_network(rng) -> dict:  # noqa: ANN001
             noninv = True
     for c in names:
         comps.append({"kind": "variable", "name": c, "value": pools[c]})
-    return {"topo": topo, "spec": {"components": comps}, "labels": labels, "maps": maps, "pools": pools, "fluxes": fluxes, "names": names, "noninvolutive": noninv, "declaration_order_shuffled": order_free}
+    return {"topo": topo, "spec": {"components": comps}, "labels": labels, "maps": maps, "pools": pools, "fluxes": fluxes, "names": names, "noninvolutive": noninv, "declaration_order_shuffled": order_free, "unit": unit}
 
 
 def invert(m: list[int]) -> list[int]:
@@ -157,7 +160,7 @@ def run_case(case: dict) -> dict:
     net = gen_network(rng)
     base = rm.build(net["spec"])
     viols: list[dict] = []
-    counters = {f"topo:{net["topo"]}": 1, "noninvolutive": int(net["noninvolutive"]), "declaration_order_shuffled": int(net["declaration_order_shuffled"])}
+    counters = {f"topo:{net["topo"]}": 1, "noninvolutive": int(net["noninvolutive"]), "declaration_order_shuffled": int(net["declaration_order_shuffled"]), "fluxes_and_pools_in_other_units": int(net["unit"] != 1.0)}
     ctx = {"topology": net["topo"], "labels": net["labels"], "maps": net["maps"], "pools": net["pools"], "fluxes": net["fluxes"]}
     # sanity: the base model is at a metabolic steady state (harness construction)
     rhs0 = base.get_right_hand_side(net["pools"], 0.0)
